@@ -1,0 +1,51 @@
+//go:build verif
+// +build verif
+
+// Verification hooks. Only compiled with `-tags verif`; nothing in the normal
+// build refers to this file.
+
+package db
+
+// VerifPager is the exported twin of the internal pager interface. It lets a
+// verification harness serve pages (and lock calls) itself: from memory, with
+// injected faults, or by wrapping the real file pager with a tracer.
+type VerifPager interface {
+	Page(n int, pagesize int) ([]byte, error)
+	Close() error
+	RLock() error
+	RUnlock() error
+	CheckReservedLock() (bool, error)
+}
+
+type verifPagerAdapter struct{ p VerifPager }
+
+func (a verifPagerAdapter) page(n int, pagesize int) ([]byte, error) { return a.p.Page(n, pagesize) }
+func (a verifPagerAdapter) Close() error                             { return a.p.Close() }
+func (a verifPagerAdapter) RLock() error                             { return a.p.RLock() }
+func (a verifPagerAdapter) RUnlock() error                           { return a.p.RUnlock() }
+func (a verifPagerAdapter) CheckReservedLock() (bool, error)         { return a.p.CheckReservedLock() }
+
+// VerifOpenPager opens a Database on a caller supplied pager. journal is the
+// journal file name, or "" for none. Same code path as OpenFile from
+// newDatabase on.
+func VerifOpenPager(p VerifPager, journal string) (*Database, error) {
+	return newDatabase(verifPagerAdapter{p}, journal)
+}
+
+// VerifFilePager is the real file pager, exported so it can be wrapped.
+type VerifFilePager struct{ fp *filePager }
+
+// VerifNewFilePager opens the real (mmap + fcntl locks) pager on a file.
+func VerifNewFilePager(file string) (*VerifFilePager, error) {
+	fp, err := newFilePager(file)
+	if err != nil {
+		return nil, err
+	}
+	return &VerifFilePager{fp: fp}, nil
+}
+
+func (v *VerifFilePager) Page(n int, pagesize int) ([]byte, error) { return v.fp.page(n, pagesize) }
+func (v *VerifFilePager) Close() error                             { return v.fp.Close() }
+func (v *VerifFilePager) RLock() error                             { return v.fp.RLock() }
+func (v *VerifFilePager) RUnlock() error                           { return v.fp.RUnlock() }
+func (v *VerifFilePager) CheckReservedLock() (bool, error)         { return v.fp.CheckReservedLock() }
